@@ -72,6 +72,11 @@ RULES = {
     'R-ORDEFAULT': generic_rules.r_ordefault,
     'R-KEYCOPY': generic_rules.r_keycopy,
     'R-SHAREDMUT': generic_rules.r_sharedmut,
+    'R-SHAREDTABLE': generic_rules.r_sharedtable,
+    'R-ONESHOT': generic_rules.r_oneshot,
+    'R-LOOPRESET': generic_rules.r_loopreset,
+    'R-WRONGCHECK': generic_rules.r_wrongcheck,
+    'R-STALESNAP': generic_rules.r_stalesnap,
 }
 
 
@@ -123,8 +128,9 @@ PROPS = {
     },
     'C02': {
         'rules': ['R-ESC', 'R-VOCAB', 'R-NONE', 'R-GUARD', 'DECOR', 'R-EXPNUM', 'R-LEVELS', 'R-TABS', 'R-ORDERED',
-                  'R-OPTKEY', 'R-FRAME', 'R-STATE', 'R-DISCONT', 'R-NODELINE'],
+                  'R-OPTKEY', 'R-FRAME', 'R-STATE', 'R-DISCONT', 'R-NODELINE', 'R-LITERALS'],
         'filter': {'R-DISCONT': site('treeanalysis.gap_degree'),
+                   'R-LITERALS': site('trees.BRACKETNAMES'),
                    'R-GUARD': rule('R-GUARD/BRACKETS'),
                    'R-FRAME': both(rule('R-FRAME/PURE'), site('treeanalysis.gap_degree', 'trees.')),
                    'R-STATE': both(rule('R-STATE/G6'), site('treeoutput.')),
@@ -145,7 +151,7 @@ PROPS = {
                    'R-PERTREE': site('transform.run'),
                    'R-OPTSIDE': site('transform.run'),
                    'R-OPENMODE': site('transform.'),
-                   'R-SIBLING': rule('R-SIBLING/GFSPLIT', 'R-SIBLING/PARENS'),
+                   'R-SIBLING': rule('R-SIBLING/GFSPLIT', 'R-SIBLING/PARENS', 'R-SIBLING/SID'),
                    'R-AUTOMATON': rule('R-AUTOMATON/A4', 'R-AUTOMATON/A3', 'R-AUTOMATON/FIELDS', 'R-AUTOMATON/LEXER'),
                    'R-OPTKEY': rule('R-OPTKEY/K3')},
         'explanation': 'Decides, for `treetools transform`: every registry member exists with the arity its dispatch '
@@ -157,8 +163,9 @@ PROPS = {
                        'losslessness of a round trip.',
     },
     'C04': {
-        'rules': ['R-LINK', 'R-KEEP', 'R-ROOT', 'R-FRAME', 'R-STALE', 'R-ORDERED', 'R-FLAGS', 'R-HEADS', 'R-DISCONT'],
+        'rules': ['R-LINK', 'R-KEEP', 'R-ROOT', 'R-FRAME', 'R-STALE', 'R-ORDERED', 'R-FLAGS', 'R-HEADS', 'R-DISCONT', 'R-LEAFGUARD'],
         'filter': {'R-DISCONT': site('transform.boyd_split', 'trees.terminal_blocks'),
+                   'R-LEAFGUARD': site('transform._uncollapse_unary_chains', 'transform._collapse_unary_chains'),
                    'R-LINK': site('transform.', 'trees.'),
                    'R-HEADS': rule('R-HEADS/MARK', 'R-HEADS/RANGE'),
                    'R-ORDERED': both(rule('R-ORDERED/RAW'), site('transform.', 'trees.'))},
@@ -373,7 +380,7 @@ PROPS = {
                    'R-STATE': both(rule('R-STATE/G1'), site('trees')),
                    'R-MEMO': site('trees'),
                    'R-LEAFGUARD': site('trees.'),
-                   'R-ORDERED': either(rule('R-ORDERED/DEF'), site('trees.'))},
+                   'R-ORDERED': either(rule('R-ORDERED/DEF'), site('trees.', 'treeoutput.compute_export_numbering'))},
         'explanation': 'Decides only: children() sorts by leftmost token, terminals() by number; preorder/postorder yield '
                        'the node once before/after recursing over the ordered children; siblings use the ordered list; '
                        'levels are recorded for constituents only and aggregated with max; export numbers are a counter '
@@ -397,7 +404,7 @@ PROPS = {
 }
 
 # generic misuse patterns (ttsa/rules/generic_rules.py) are looked for in the functions each property is anchored in
-GENERIC = ['R-SUBSTR', 'R-DEADCHECK', 'R-FALSYZERO', 'R-DICTCOMP', 'R-STALEACC', 'R-ZEROTABLE', 'R-LEAKVAR', 'R-STRSORT', 'R-FMTDATA', 'R-COUNTERUNION', 'R-INSTR', 'R-ORDEFAULT', 'R-KEYCOPY', 'R-SHAREDMUT']
+GENERIC = ['R-SUBSTR', 'R-DEADCHECK', 'R-FALSYZERO', 'R-DICTCOMP', 'R-STALEACC', 'R-ZEROTABLE', 'R-LEAKVAR', 'R-STRSORT', 'R-FMTDATA', 'R-COUNTERUNION', 'R-INSTR', 'R-ORDEFAULT', 'R-KEYCOPY', 'R-SHAREDMUT', 'R-SHAREDTABLE', 'R-ONESHOT', 'R-LOOPRESET', 'R-WRONGCHECK', 'R-STALESNAP']
 PROP_SITES = {
     'C01': ('treeinput.', 'trees.parse_label', 'misc.'),
     'C02': ('treeoutput.', 'trees.get_label', 'treeanalysis.gap'),
